@@ -664,6 +664,11 @@ void GOMP_parallel(void (*fn)(void *), void *data, unsigned num_threads, unsigne
     int level = up->team ? up->team->level + 1 : 1;
     if (n < 1) n = 1;
     if (active >= W.max_active_levels) n = 1;
+    /* fault model of the real runtime: it cannot start a team of any size.  libgomp on this machine starts 20 000
+       threads, dies with SIGSEGV in its team start at 100 000 and with an out-of-memory abort at 2e9 - in every case
+       the process of the caller ends abnormally, which the caller can only prevent by not asking */
+    if (W.team_fail_above > 0 && n > (unsigned)W.team_fail_above)
+        sim_fatal("RUNTIME_TEAM", "the OpenMP runtime cannot start a team of %u threads (thread creation failure; real libgomp ends the process)", n);
     if ((int)n > W.thread_limit) n = (unsigned)W.thread_limit;
     if (n > 1 && W.p_shortfall) {
         unsigned c = sim_decide(DK_TEAMSIZE, n, W.p_shortfall);
